@@ -69,7 +69,7 @@ func (e *Engine) Call(fn *ssa.Function, args []Value, binds []Value, st *State, 
 			continue
 		}
 		if l := fr.loops[b]; l != nil {
-			if ind, init, step, n, ok := constTrip(fr, l); ok {
+			if ind, init, step, n, ok := e.constTrip(fr, l, in); ok {
 				e.unrollLoop(fr, l, order, in, ind, init, step, n)
 				continue
 			}
@@ -81,7 +81,7 @@ func (e *Engine) Call(fn *ssa.Function, args []Value, binds []Value, st *State, 
 
 // constTrip recognises `for i := a; i < c; i += s` with constants (innermost loop, one latch,
 // exit only from the header) and returns the trip count.
-func constTrip(fr *frame, l *loopInfo) (ind *ssa.Phi, init, step, n int64, ok bool) {
+func (e *Engine) constTrip(fr *frame, l *loopInfo, in *State) (ind *ssa.Phi, init, step, n int64, ok bool) {
 	if len(l.latches) != 1 {
 		return
 	}
@@ -112,11 +112,34 @@ func constTrip(fr *frame, l *loopInfo) (ind *ssa.Phi, init, step, n int64, ok bo
 		return
 	}
 	phi, isPhi := cmp.X.(*ssa.Phi)
-	k, isK := cmp.Y.(*ssa.Const)
-	if !isPhi || !isK || phi.Block() != h {
+	plus := int64(0)
+	if !isPhi {
+		// range form: the compared value is phi + 1, computed in the header
+		if bo, isBo := cmp.X.(*ssa.BinOp); isBo && bo.Op == token.ADD && bo.Block() == h {
+			if p2, isP := bo.X.(*ssa.Phi); isP {
+				if c1, isC := bo.Y.(*ssa.Const); isC {
+					if v, okc := constOf(c1); okc && v == 1 {
+						phi, isPhi, plus = p2, true, 1
+					}
+				}
+			}
+		}
+	}
+	if !isPhi || phi.Block() != h {
 		return
 	}
-	bound, okb := constOf(k)
+	var bound uint64
+	okb := false
+	if k, isK := cmp.Y.(*ssa.Const); isK {
+		bound, okb = constOf(k)
+	} else if h.Dominates(h) && cmp.Y != nil {
+		// a bound computed before the loop that is a constant in the entry state (len of a list of assumed length)
+		if def, isInstr := cmp.Y.(ssa.Instruction); isInstr && !l.blocks[def.Block()] {
+			if iv, isInt := e.val(fr, cmp.Y, in).(*IntV); isInt && iv.A != nil && iv.A.isConst() && iv.A.C >= 0 {
+				bound, okb = uint64(iv.A.C), true
+			}
+		}
+	}
 	var initV, stepV ssa.Value
 	for i, p := range h.Preds {
 		if l.blocks[p] {
@@ -135,8 +158,9 @@ func constTrip(fr *frame, l *loopInfo) (ind *ssa.Phi, init, step, n int64, ok bo
 		return
 	}
 	cnt := int64(0)
-	if int64(bound) > int64(a) {
-		cnt = (int64(bound) - int64(a) + sc - 1) / sc
+	first := int64(a) + plus // first compared value
+	if int64(bound) > first {
+		cnt = (int64(bound) - first + sc - 1) / sc
 	}
 	if cnt > 64 {
 		return
@@ -760,6 +784,21 @@ func (e *Engine) runBlock(fr *frame, b *ssa.BasicBlock, st *State) {
 			return
 		case *ssa.Store:
 			e.store(fr, st, x)
+		case *ssa.MapUpdate:
+			// a map literal built from constants (lookup tables returned by helper functions)
+			if mv, ok := e.val(fr, x.Map, st).(*MapV); ok {
+				kv, isInt := e.val(fr, x.Key, st).(*IntV)
+				var k uint64
+				isC := false
+				if isInt {
+					k, isC = st.normalize(kv.B).isConst()
+				}
+				if isC {
+					mv.M[k] = e.val(fr, x.Value, st)
+				} else {
+					mv.Unknown = true
+				}
+			}
 		case *ssa.Call:
 			fr.vals[x] = e.call(fr, st, x)
 		case *ssa.UnOp:
@@ -876,6 +915,22 @@ func (e *Engine) eval(fr *frame, v ssa.Value, st *State) Value {
 		}
 		obj := e.NewObject(fmt.Sprintf("%s#%d", x.Comment, e.nextID), t, false)
 		return &PtrV{Obj: obj, T: t}
+	case *ssa.MakeMap:
+		return &MapV{M: map[uint64]Value{}, ElemT: x.Type().Underlying().(*types.Map).Elem()}
+	case *ssa.Lookup:
+		if mv, ok := e.val(fr, x.X, st).(*MapV); ok && !x.CommaOk && !mv.Unknown {
+			if kv, ok := e.val(fr, x.Index, st).(*IntV); ok {
+				if k, isC := st.normalize(kv.B).isConst(); isC {
+					if v, has := mv.M[k]; has {
+						return v
+					}
+					if w, _ := typeWidth(mv.ElemT); w > 0 {
+						return &IntV{B: constBV(0, w), A: affConst(0)}
+					}
+				}
+			}
+		}
+		return e.unknownOf(x.Type(), "map lookup")
 	case *ssa.MakeSlice:
 		n := e.intOf(e.val(fr, x.Len, st), 64)
 		buf := e.NewBuf(fmt.Sprintf("make%d", e.nextID), true, false)
@@ -1419,6 +1474,10 @@ func (e *Engine) indexAddr(fr *frame, st *State, x *ssa.IndexAddr) Value {
 		}
 		if b.Elem != "" {
 			et := x.Type().Underlying().(*types.Pointer).Elem()
+			if b.LenOK && idx.A != nil && idx.A.isConst() && idx.A.C >= 0 && idx.A.C < b.LenC {
+				// a list of assumed length indexed by a constant: its own element
+				return &PtrV{Obj: e.elemObject(fmt.Sprintf("%s[%d]", b.Elem, idx.A.C), et), T: et}
+			}
 			return &PtrV{Obj: e.elemObject(b.Elem+"[]", et), T: et}
 		}
 	case *PtrV:
@@ -1546,6 +1605,9 @@ func (e *Engine) loadObj(st *State, o *Object, path string, t types.Type) Value 
 			return v
 		}
 		if o.Symbolic {
+			if c, ok := e.FieldConst[fieldName(o, path)]; ok {
+				return &IntV{B: constBV(c, w), A: affConst(int64(c))}
+			}
 			return &IntV{B: st.normalize(srcBV("F:"+fieldName(o, path), w))}
 		}
 		return &IntV{B: constBV(0, w)} // zero value of a local object
@@ -1554,6 +1616,9 @@ func (e *Engine) loadObj(st *State, o *Object, path string, t types.Type) Value 
 			return v
 		}
 		if o.Symbolic {
+			if n, ok := e.ListLen[fieldName(o, path)]; ok {
+				return &SliceV{Elem: fieldName(o, path), ElemT: u.Elem(), LenC: n, LenOK: true}
+			}
 			return &SliceV{Elem: fieldName(o, path), ElemT: u.Elem()}
 		}
 		return &SliceV{IsNil: true, LenOK: true}
